@@ -1,3 +1,4 @@
+import GlmVerif.Spec.C01
 import GlmVerif.Spec.C02
 import GlmVerif.Spec.C04
 import GlmVerif.Spec.C08
@@ -6,6 +7,7 @@ import GlmVerif.Spec.C10
 import GlmVerif.Spec.C12
 namespace Glm.Spec
 def familiesOf : String → List Family
+  | "C01" => C01.families
   | "C02" => C02.families
   | "C04" => C04.families
   | "C08" => C08.families
